@@ -109,7 +109,7 @@ Reversed(s, ch) == /\ ~ch.full /\ SrvIdx(s, ch.s) # {} /\ SrvIdx(s, ch.e) # {}
 (* ignored - never stored; requests on it answer with an error.  A document is *)
 (* identified by the path its URI maps to.                                     *)
 HasPath(d) == d \notin {"u", "h", "g"}
-InPkg(d) == d \in {"d1", "d2", "d3", "e"}
+InPkg(d) == d \in {"d1", "d2", "d3", "e", "n"}     \* "n": a file: URI whose percent-encoded path is not valid UTF-8 (%FF): a file like any other
 Canon(d) == IF d = "q" THEN "d3" ELSE d
 DiskInit(d) == d \in {"d1", "d2"}
 DiskText(d) == IF d = "d1" THEN <<"a", "nl", "a">> ELSE <<"a">>
